@@ -306,7 +306,7 @@ class PropertyRun:
             with self._contexts(unit, False):
                 ctx, status, detail = engine.run_concrete(unit.body, v["inputs"])
             last = (status, detail)
-            if status in ("failed", "exception"):
+            if status in ("failed", "exception") and self._conc_label(unit, label, ctx, status, detail, v["inputs"], known) is not None:
                 reproduced = (v, ctx, status, detail)
                 break
         if reproduced is None:
@@ -327,7 +327,7 @@ class PropertyRun:
                     with self._contexts(unit, False):
                         ctx, status, detail = engine.run_concrete(unit.body, inp)
                     tried += 1
-                    if status in ("failed", "exception"):
+                    if status in ("failed", "exception") and self._conc_label(unit, label, ctx, status, detail, inp, known) is not None:
                         v2 = dict(v)
                         v2["inputs"] = inp
                         reproduced = (v2, ctx, status, detail)
@@ -351,12 +351,10 @@ class PropertyRun:
                 ctx2, st2, det2 = engine.run_concrete(unit.body, v2["inputs"])
             if st2 not in ("failed", "exception"):
                 continue
-            clabel = label
-            if st2 == "exception":
-                clabel = "uncaught:" + det2.split(":")[0]
-            elif ctx2.failures:
-                clabel = ctx2.failures[0]["label"]
-            k = match_known(known, unit.name, clabel, v2["inputs"], det2) or match_known(known, unit.name, label, v2["inputs"], det2)
+            clabel = self._conc_label(unit, label, ctx2, st2, det2, v2["inputs"], known)
+            if clabel is None:
+                continue
+            k = match_known(known, unit.name, clabel, v2["inputs"], det2)
             if k is not None:
                 line = f"KNOWN-FINDING: property={self.pid} {k['id']}: {k['summary']}"
                 if line not in self.known_lines:
@@ -367,13 +365,33 @@ class PropertyRun:
                 self.violation_lines.append((f"VIOLATION property={self.pid} replay={p}", f"unit={unit.name} label={clabel} {det2[:400]}"))
                 reported = True
 
+    def _conc_label(self, unit, label, ctx2, st2, det2, inputs, known):
+        """The label under which a concrete replay reproduces the failure of obligation `label`, or None.  A replay that only
+        fails *other* obligations which are listed known findings (they fail on every path of such a unit) is not a reproduction
+        of this one - and must not lend it their 'known' status."""
+        if st2 == "exception":
+            return "uncaught:" + det2.split(":")[0]
+        fl = [f["label"] for f in ctx2.failures]
+        if label in fl:
+            return label
+        others = [l for l in fl if match_known(known, unit.name, l, inputs, det2) is None]
+        return others[0] if others else None
+
     def _concrete_failure(self, unit, origin, inputs, ctx, status, detail, known):
-        label = "uncaught:" + detail.split(":")[0] if status == "exception" else (ctx.failures[0]["label"] if ctx.failures else "?")
-        k = match_known(known, unit.name, label, inputs, detail)
-        if k is not None:
-            line = f"KNOWN-FINDING: property={self.pid} {k['id']}: {k['summary']}"
-            if line not in self.known_lines:
-                self.known_lines.append(line)
+        if status == "exception":
+            labels = ["uncaught:" + detail.split(":")[0]]
+        else:
+            labels = [f["label"] for f in ctx.failures] or ["?"]
+        label = None
+        for l in labels:          # every failed obligation of the run: a listed one must not hide an unlisted one behind it
+            k = match_known(known, unit.name, l, inputs, detail)
+            if k is not None:
+                line = f"KNOWN-FINDING: property={self.pid} {k['id']}: {k['summary']}"
+                if line not in self.known_lines:
+                    self.known_lines.append(line)
+            elif label is None:
+                label = l
+        if label is None:
             return
         if any(unit.name in l[1] and f"label={label} " in l[1] for l in self.violation_lines):
             return
